@@ -1,1 +1,249 @@
-(* stub: to be written by group Csv *)
+(* C11 - Writing transactions to CSV and reading them back is the identity.
+   Obligations of the property; models in Model/CsvFields.v and
+   Model/CsvTable.v, proofs in Proofs/Csv*.v. *)
+From Coq Require Import List NArith ZArith Bool Arith.
+From ACB Require Import Base.Outcome Model.CsvFields Model.CsvTable
+     Proofs.CsvDigits Proofs.CsvFieldProps Proofs.CsvAffProps Proofs.CsvProps.
+Import ListNotations.
+Local Open Scope N_scope.
+
+(* ------------------------------------------------------------------ the round trip
+   For EVERY list of valid transactions (any length, every action, decimals
+   of any scale 0..28 and mantissa up to 96 bits, any memo bytes, any
+   interned affiliate), written by write_txs_to_csv over any RFC-4180 layer
+   that reads back what it wrote, parse_tx_csv + Tx::try_from accept the
+   bytes and return, position by position, the same transaction: same
+   security, dates, action, numerically equal decimals with the same sign,
+   same currencies, same force flag and integer-only flag, memo trimmed,
+   same affiliate - except that a split of the default affiliate may come
+   back as a split of all affiliates when no transaction names another
+   affiliate; read_index = position. *)
+Theorem C11_roundtrip : forall cw cr, csv_layer_ok cw cr ->
+  forall tbl txs, forallb (valid_tx tbl) txs = true ->
+  exists txs' tbl2,
+    read cr (snd (write cw tbl txs)) (fst (write cw tbl txs)) = Ok (txs', tbl2)
+    /\ forall2b (tx_same (no_named_affiliate txs)) txs txs' = true /\ ri_from 0 txs' = true.
+Proof. exact roundtrip_bytes. Qed.
+Check C11_roundtrip : forall cw cr, csv_layer_ok cw cr ->
+  forall tbl txs, forallb (valid_tx tbl) txs = true ->
+  exists txs' tbl2,
+    read cr (snd (write cw tbl txs)) (fst (write cw tbl txs)) = Ok (txs', tbl2)
+    /\ forall2b (tx_same (no_named_affiliate txs)) txs txs' = true /\ ri_from 0 txs' = true.
+Print Assumptions C11_roundtrip.
+
+(* the same on cells (no hypothesis on the csv crate) *)
+Theorem C11_roundtrip_cells : forall tbl txs, forallb (valid_tx tbl) txs = true ->
+  exists txs' tbl2,
+    read_table (snd (write_table tbl txs)) (fst (fst (write_table tbl txs))) (snd (fst (write_table tbl txs)))
+    = Ok (txs', tbl2)
+    /\ forall2b (tx_same (no_named_affiliate txs)) txs txs' = true /\ ri_from 0 txs' = true.
+Proof. exact table_roundtrip. Qed.
+Check C11_roundtrip_cells : forall tbl txs, forallb (valid_tx tbl) txs = true ->
+  exists txs' tbl2,
+    read_table (snd (write_table tbl txs)) (fst (fst (write_table tbl txs))) (snd (fst (write_table tbl txs)))
+    = Ok (txs', tbl2)
+    /\ forall2b (tx_same (no_named_affiliate txs)) txs txs' = true /\ ri_from 0 txs' = true.
+Print Assumptions C11_roundtrip_cells.
+
+(* ------------------------------------------------------------------ the second generation
+   Full statement: write (read (write txs)) = write txs for every valid list. *)
+Definition C11_idempotent_full : Prop := forall cw cr, csv_layer_ok cw cr ->
+  forall tbl txs, forallb (valid_tx tbl) txs = true ->
+  exists txs' tbl2,
+    read cr (snd (write cw tbl txs)) (fst (write cw tbl txs)) = Ok (txs', tbl2)
+    /\ fst (write cw tbl2 txs') = fst (write cw tbl txs).
+
+(* It does not hold of the code: two executable classes of lists re-read
+   correctly but re-written to different cells (hence different bytes under
+   any csv layer, which is injective on tables).  The witnesses are replayed
+   on the implementation by the check. *)
+Theorem C11_idempotent_refuted :
+  exists tbl txs, forallb (valid_tx tbl) txs = true /\ second_differs tbl txs.
+Proof. exists wit_tbl, [wit_buy [32; 120]]. split; apply memo_witness. Qed.
+Check C11_idempotent_refuted :
+  exists tbl txs, forallb (valid_tx tbl) txs = true /\ second_differs tbl txs.
+Print Assumptions C11_idempotent_refuted.
+
+Theorem C11_K_memo_untrimmed_witness :
+  forallb (valid_tx wit_tbl) [wit_buy [32; 120]] = true
+  /\ K_memo_untrimmed [wit_buy [32; 120]] = true /\ K_default_split [wit_buy [32; 120]] = false
+  /\ second_differs wit_tbl [wit_buy [32; 120]].
+Proof. exact memo_witness. Qed.
+Check C11_K_memo_untrimmed_witness :
+  forallb (valid_tx wit_tbl) [wit_buy [32; 120]] = true
+  /\ K_memo_untrimmed [wit_buy [32; 120]] = true /\ K_default_split [wit_buy [32; 120]] = false
+  /\ second_differs wit_tbl [wit_buy [32; 120]].
+Print Assumptions C11_K_memo_untrimmed_witness.
+
+Theorem C11_K_default_split_witness :
+  forallb (valid_tx wit_tbl) [wit_split] = true
+  /\ K_memo_untrimmed [wit_split] = false /\ K_default_split [wit_split] = true
+  /\ second_differs wit_tbl [wit_split].
+Proof. exact split_witness. Qed.
+Check C11_K_default_split_witness :
+  forallb (valid_tx wit_tbl) [wit_split] = true
+  /\ K_memo_untrimmed [wit_split] = false /\ K_default_split [wit_split] = true
+  /\ second_differs wit_tbl [wit_split].
+Print Assumptions C11_K_default_split_witness.
+
+(* the writer is injective on tables: different cells give different bytes *)
+Theorem C11_different_cells_different_bytes : forall cw cr, csv_layer_ok cw cr ->
+  forall h1 r1 h2 r2,
+    h1 <> [] -> Forall (fun r => length r = length h1) r1 ->
+    h2 <> [] -> Forall (fun r => length r = length h2) r2 ->
+    cw (h1 :: r1) = cw (h2 :: r2) -> h1 :: r1 = h2 :: r2.
+Proof. exact write_injective. Qed.
+Check C11_different_cells_different_bytes : forall cw cr, csv_layer_ok cw cr ->
+  forall h1 r1 h2 r2,
+    h1 <> [] -> Forall (fun r => length r = length h1) r1 ->
+    h2 <> [] -> Forall (fun r => length r = length h2) r2 ->
+    cw (h1 :: r1) = cw (h2 :: r2) -> h1 :: r1 = h2 :: r2.
+Print Assumptions C11_different_cells_different_bytes.
+
+(* Outside the two classes the full statement holds, for all lists. *)
+Theorem C11_idempotent : forall cw cr, csv_layer_ok cw cr ->
+  forall tbl txs, forallb (valid_tx tbl) txs = true ->
+  K_memo_untrimmed txs = false -> K_default_split txs = false ->
+  exists txs' tbl2,
+    read cr (snd (write cw tbl txs)) (fst (write cw tbl txs)) = Ok (txs', tbl2)
+    /\ fst (write cw tbl2 txs') = fst (write cw tbl txs).
+Proof. exact idempotent_bytes. Qed.
+Check C11_idempotent : forall cw cr, csv_layer_ok cw cr ->
+  forall tbl txs, forallb (valid_tx tbl) txs = true ->
+  K_memo_untrimmed txs = false -> K_default_split txs = false ->
+  exists txs' tbl2,
+    read cr (snd (write cw tbl txs)) (fst (write cw tbl txs)) = Ok (txs', tbl2)
+    /\ fst (write cw tbl2 txs') = fst (write cw tbl txs).
+Print Assumptions C11_idempotent.
+
+Theorem C11_idempotent_cells : forall tbl txs, forallb (valid_tx tbl) txs = true ->
+  K_memo_untrimmed txs = false -> K_default_split txs = false ->
+  exists txs' tbl2,
+    read_table (snd (write_table tbl txs)) (fst (fst (write_table tbl txs))) (snd (fst (write_table tbl txs)))
+    = Ok (txs', tbl2)
+    /\ fst (write_table tbl2 txs') = fst (write_table tbl txs).
+Proof. exact table_idempotent. Qed.
+Check C11_idempotent_cells : forall tbl txs, forallb (valid_tx tbl) txs = true ->
+  K_memo_untrimmed txs = false -> K_default_split txs = false ->
+  exists txs' tbl2,
+    read_table (snd (write_table tbl txs)) (fst (fst (write_table tbl txs))) (snd (fst (write_table tbl txs)))
+    = Ok (txs', tbl2)
+    /\ fst (write_table tbl2 txs') = fst (write_table tbl txs).
+Print Assumptions C11_idempotent_cells.
+
+(* ------------------------------------------------------------------ field codecs *)
+(* to_string_min_precision k keeps every significant digit: Decimal::from_str
+   of the text is the same number with the same sign (the display scale may
+   change), for every mantissa up to 2^96-1 and every scale up to 28 *)
+Theorem C11_decimal_roundtrip : forall d k, valid_dec d = true -> (k <= 28)%nat ->
+  exists d', parse_dec (tsmp k d) = Ok d' /\ dec_same d d' /\ valid_dec d' = true.
+Proof. exact parse_tsmp. Qed.
+Check C11_decimal_roundtrip : forall d k, valid_dec d = true -> (k <= 28)%nat ->
+  exists d', parse_dec (tsmp k d) = Ok d' /\ dec_same d d' /\ valid_dec d' = true.
+Print Assumptions C11_decimal_roundtrip.
+
+(* and the rendering depends only on sign and value, so the re-read decimal
+   is written as the same text *)
+Theorem C11_decimal_stable : forall k a b, dec_same a b -> tsmp k a = tsmp k b.
+Proof. exact tsmp_same. Qed.
+Check C11_decimal_stable : forall k a b, dec_same a b -> tsmp k a = tsmp k b.
+Print Assumptions C11_decimal_stable.
+
+Theorem C11_date_roundtrip : forall d, valid_date d = true ->
+  parse_date (show_date d) = Ok d /\ edges_ok (show_date d) = true.
+Proof. exact date_roundtrip. Qed.
+Check C11_date_roundtrip : forall d, valid_date d = true ->
+  parse_date (show_date d) = Ok d /\ edges_ok (show_date d) = true.
+Print Assumptions C11_date_roundtrip.
+
+Theorem C11_action_roundtrip : forall a, parse_act (show_act a) = Ok a /\ edges_ok (show_act a) = true.
+Proof. exact act_roundtrip. Qed.
+Check C11_action_roundtrip : forall a, parse_act (show_act a) = Ok a /\ edges_ok (show_act a) = true.
+Print Assumptions C11_action_roundtrip.
+
+Theorem C11_currency_roundtrip : forall c, valid_cur c = true ->
+  currency_new c = c /\ trim c = c /\ is_nil c = false.
+Proof. exact currency_roundtrip. Qed.
+Check C11_currency_roundtrip : forall c, valid_cur c = true ->
+  currency_new c = c /\ trim c = c /\ is_nil c = false.
+Print Assumptions C11_currency_roundtrip.
+
+(* Affiliate::from_strep (name a) = a, for every affiliate made from ASCII
+   text, including every placement and spelling of the marker "(R)" *)
+Theorem C11_affiliate_roundtrip : forall s, is_ascii s = true ->
+  from_strep_data (a_name (from_strep_data s)) = from_strep_data s.
+Proof. exact from_strep_name. Qed.
+Check C11_affiliate_roundtrip : forall s, is_ascii s = true ->
+  from_strep_data (a_name (from_strep_data s)) = from_strep_data s.
+Print Assumptions C11_affiliate_roundtrip.
+
+Theorem C11_affiliate_cell : forall s, is_ascii s = true ->
+  trim (a_name (from_strep_data s)) = a_name (from_strep_data s) /\ a_name (from_strep_data s) <> [].
+Proof. exact from_strep_name_cell. Qed.
+Check C11_affiliate_cell : forall s, is_ascii s = true ->
+  trim (a_name (from_strep_data s)) = a_name (from_strep_data s) /\ a_name (from_strep_data s) <> [].
+Print Assumptions C11_affiliate_cell.
+
+(* superficial-loss marker, with and without the force flag "!" *)
+Theorem C11_sfl_roundtrip : forall v, valid_sfl v = true ->
+  parse_sfl (show_sfl v) = Ok (rp_sfl v) /\ dec_same (sf_val v) (sf_val (rp_sfl v))
+  /\ show_sfl (rp_sfl v) = show_sfl v /\ edges_ok (show_sfl v) = true.
+Proof. exact sfl_roundtrip. Qed.
+Check C11_sfl_roundtrip : forall v, valid_sfl v = true ->
+  parse_sfl (show_sfl v) = Ok (rp_sfl v) /\ dec_same (sf_val v) (sf_val (rp_sfl v))
+  /\ show_sfl (rp_sfl v) = show_sfl v /\ edges_ok (show_sfl v) = true.
+Print Assumptions C11_sfl_roundtrip.
+
+(* split ratio, all three renderings ("2-for-1", "1.0-for-2.0", "1.5-for-1"):
+   same numbers, same reverse_integer_only *)
+Theorem C11_ratio_roundtrip : forall r, valid_ratio r = true ->
+  parse_ratio (show_ratio r) = Ok (rp_ratio r)
+  /\ dec_same (r_post r) (r_post (rp_ratio r)) /\ dec_same (r_pre r) (r_pre (rp_ratio r))
+  /\ r_rio (rp_ratio r) = r_rio r /\ show_ratio (rp_ratio r) = show_ratio r
+  /\ edges_ok (show_ratio r) = true.
+Proof. exact ratio_roundtrip. Qed.
+Check C11_ratio_roundtrip : forall r, valid_ratio r = true ->
+  parse_ratio (show_ratio r) = Ok (rp_ratio r)
+  /\ dec_same (r_post r) (r_post (rp_ratio r)) /\ dec_same (r_pre r) (r_pre (rp_ratio r))
+  /\ r_rio (rp_ratio r) = r_rio r /\ show_ratio (rp_ratio r) = show_ratio r
+  /\ edges_ok (show_ratio r) = true.
+Print Assumptions C11_ratio_roundtrip.
+
+(* ------------------------------------------------------------------ non-vacuity *)
+(* the csv-layer hypothesis has a model, and a 4-row list (USD purchase with a
+   29-digit price, a sale with a forced superficial loss and a separate
+   commission currency, a reverse split allowing fractions for a registered
+   affiliate, a cost-base adjustment) is valid, is read back as the same
+   transactions and re-written to the same bytes *)
+Definition ex_tbl : aftable := snd (intern (snd (intern [] [])) [83; 112; 32; 40; 82; 41]).
+Definition ex_sp : affdata := from_strep_data [83; 112; 32; 40; 82; 41].
+Definition ex_date m d : date := {| dt_y := 2024; dt_m := m; dt_d := d |}.
+Definition ex_usd : car := {| c_cur := [85; 83; 68]; c_rate := mk_dec false 13650 4 |}.
+Definition ex_txs : list ctx := [
+  {| x_sec := [70; 79; 79]; x_td := ex_date 2 27; x_sd := ex_date 2 29;
+     x_act := XBuy (mk_dec false 1000 2) (mk_dec false 79228162514264337593543950335 0) (mk_dec false 999 2) ex_usd None;
+     x_memo := [97; 44; 34; 98; 34]; x_af := from_strep_data []; x_ri := 5 |};
+  {| x_sec := [70; 79; 79]; x_td := ex_date 3 1; x_sd := ex_date 3 4;
+     x_act := XSell (mk_dec false 5 0) (mk_dec false 12 1) (mk_dec false 0 0) car_default (Some ex_usd)
+                    (Some {| sf_val := mk_dec true 1050 3; sf_force := true |});
+     x_memo := []; x_af := from_strep_data []; x_ri := 5 |};
+  {| x_sec := [70; 79; 79]; x_td := ex_date 4 1; x_sd := ex_date 4 1;
+     x_act := XSplit {| r_post := mk_dec false 1 0; r_pre := mk_dec false 20 1; r_rio := false |};
+     x_memo := []; x_af := ex_sp; x_ri := 0 |};
+  {| x_sec := [70; 79; 79]; x_td := ex_date 4 2; x_sd := ex_date 4 2;
+     x_act := XSfla (mk_dec false 1 0) (mk_dec false 105 2);
+     x_memo := []; x_af := from_strep_data []; x_ri := 9 |}
+].
+Example C11_nonvacuous :
+  csv_layer_ok toy_cw toy_cr
+  /\ forallb (valid_tx ex_tbl) ex_txs = true
+  /\ K_memo_untrimmed ex_txs = false /\ K_default_split ex_txs = false
+  /\ (exists txs' tbl2,
+        read toy_cr (snd (write toy_cw ex_tbl ex_txs)) (fst (write toy_cw ex_tbl ex_txs)) = Ok (txs', tbl2)
+        /\ map x_ri txs' = [0; 1; 2; 3] /\ map x_af txs' = map x_af ex_txs
+        /\ fst (write toy_cw tbl2 txs') = fst (write toy_cw ex_tbl ex_txs)).
+Proof.
+  split; [exact toy_layer_ok|]. split; [vm_compute; reflexivity|].
+  split; [vm_compute; reflexivity|]. split; [vm_compute; reflexivity|].
+  eexists. eexists. split; [vm_compute; reflexivity|]. vm_compute. repeat split.
+Qed.
